@@ -60,6 +60,10 @@ type hist struct {
 }
 
 var (
+	// forced: every tracked session is started with the hard-fork check overridden
+	// (app.DisableHardForkCheck / --no-hf: node.NewPegnetd only logs the refusal), so the table
+	// can hold any arrangement of versions; only the final start-up is checked
+	forced  bool
 	scratch string
 	counter int
 	// the final start-up of every viaNodeEvery-th history goes through node.NewPegnetd
@@ -147,9 +151,14 @@ func replay(h hist) string {
 		if s.Tracked {
 			pegnet.PegnetdSyncVersion = s.V
 			p, height := open(c)
-			if err := p.CheckHardForks(p.DB); err != nil {
-				if classify(err) == 3 {
-					die("CheckHardForks: unexpected error %v", err)
+			// with the override the check still runs (and back-fills); only its refusal is ignored
+			cerr := p.CheckHardForks(p.DB)
+			if cerr != nil && classify(cerr) != 3 && forced {
+				cerr = nil
+			}
+			if cerr != nil {
+				if classify(cerr) == 3 {
+					die("CheckHardForks: unexpected error %v", cerr)
 				}
 				done = -1
 			} else {
@@ -299,6 +308,34 @@ func realHistories() []hist {
 	}
 	if cur > 0 {
 		hs = append(hs, hist{forks, base, []sess{T(cur-1, 2), T(cur, 2)}, cur})
+	}
+	return hs
+}
+
+// realForced: the repository's own fork table with an old build between two forks and an adequate
+// one from just below the next fork on (the first start of the adequate build was overridden)
+func realForced() []hist {
+	var hs []hist
+	real := realHistories()
+	if len(real) == 0 {
+		return hs
+	}
+	forks := real[0].Forks
+	var acts []pegnet.ForkEvent
+	for _, f := range forks {
+		if f.MinimumVersion > -1 {
+			acts = append(acts, f)
+		}
+	}
+	for i := 0; i+1 < len(acts); i++ {
+		a, b := acts[i], acts[i+1]
+		if b.ActivationHeight <= a.ActivationHeight || b.ActivationHeight-a.ActivationHeight > 3000 {
+			continue
+		}
+		base := a.ActivationHeight - 3
+		gap := int(b.ActivationHeight-a.ActivationHeight) - 2
+		hs = append(hs, hist{forks, base, []sess{{true, a.MinimumVersion - 1, 8}, {true, b.MinimumVersion, gap + 6}}, b.MinimumVersion})
+		hs = append(hs, hist{forks, base, []sess{{true, a.MinimumVersion, 8}, {true, b.MinimumVersion, gap + 6}}, b.MinimumVersion})
 	}
 	return hs
 }
@@ -491,7 +528,7 @@ func parseHist(line string) hist {
 
 func main() {
 	if len(os.Args) < 4 {
-		fmt.Fprintln(os.Stderr, "usage: forks <random|exh|replay|neigh> <seed> <count> [scratch-dir]")
+		fmt.Fprintln(os.Stderr, "usage: forks <random|forced|exh|replay|neigh> <seed> <count> [scratch-dir]")
 		os.Exit(2)
 	}
 	logrus.SetOutput(ioutil.Discard)
@@ -535,6 +572,23 @@ func main() {
 		}
 		for i := 0; i < n; i++ {
 			emit(randomHistory(rng))
+		}
+	case "forced":
+		forced = true
+		viaNodeEvery = 1 << 30
+		rng := rand.New(rand.NewSource(seed + 991))
+		for _, h := range append(realForced(), fixedHistories()...) {
+			emit(h)
+		}
+		for i := 0; i < n; i++ {
+			h := randomHistory(rng)
+			// versions in any order, not mostly an upgrade path
+			for j := range h.Sessions {
+				if h.Sessions[j].Tracked && rng.Intn(2) == 0 {
+					h.Sessions[j].V = rng.Intn(4)
+				}
+			}
+			emit(h)
 		}
 	case "exh":
 		exhaustive(n, emit)
